@@ -367,7 +367,10 @@ def _stack(ctx, callbacks=2, reset_waiter=False):
 
 
 def _stack_inline(g, aw):
-    return g.cls is not None and g.cls.name in ("AshProtocol", "Gateway", "EZSP") and not g.is_async and g.name not in ("_write_frame",)
+    if g.is_async or g.name in ("_write_frame",):
+        return False
+    # the three wired classes and the module-level helpers of their modules
+    return (g.cls is not None and g.cls.name in ("AshProtocol", "Gateway", "EZSP")) or (g.cls is None and g.mod in (ASH, "bellows.uart", EZ))
 
 
 @rule("R10.3", ["C10"], "T-FLOW", floor=10)
